@@ -133,6 +133,13 @@ def run_consumers(rep, tier, seed, what, label):
     rep.transitions += res.generated
     for sv in solvers[: 2 if tier == "quick" else None]:
         items.append((cfg, sv, "fixedpoint", False, "save_at", behs))
+    # a final time that the last (unclipped) step oversteps: the returned posterior must be anchored at the final checkpoint
+    cfg2 = l0.make_config("remainder", "flat", "I_1", False, 1, max_att=8)
+    res2, behs2 = behaviours(cfg2, 2 if tier == "quick" else 6, seed)
+    rep.states += res2.distinct
+    rep.transitions += res2.generated
+    for sv in solvers[: 1 if tier == "quick" else None]:
+        items.append((cfg2, sv, "fixedpoint", False, "save_at", behs2))
     traces, meta = [], []
     for j, (cfg_, sv, strat, initc, mode, bs) in enumerate(items):
         runner = l1.L1Runner(cfg_, sv, strat, initc, mode)
